@@ -369,7 +369,7 @@ def sensitivity_selftest(prop, seed):
                 out.append({"seed": m["seed"], "result": "patch does not apply to the current source: skipped"})
                 continue
             env = {**os.environ, "VERIF_REPO": d, "VERIF_EVIDENCE_DIR": os.path.join(d, "evidence"), "VERIF_IN_SELFTEST": "1",
-                   "VERIF_TIER": "quick"}
+                   "VERIF_TIER": "quick", "VERIF_NO_SECOND_CHANCE": "1"}    # (no retry of open obligations: the copy is expected to fail)
             p = subprocess.run([sys.executable, "-m", "pyvc.check", prop, "--tier", "quick"], cwd=ROOT, env=env, capture_output=True, text=True,
                                timeout=3600)
             failed = [ln.strip()[len("failed obligation: "):] for ln in p.stdout.split("\n") if ln.strip().startswith("failed obligation:")]
